@@ -148,6 +148,7 @@ RULE_CLAUSES = {
     'NULLPARAM': 'an optional pointer parameter is dereferenced only after a non-null test or after it was given a local default on every null path (NULLPARAM)',
     'TENTATIVE': 'no effect is made under a tentatively inserted map entry while it can still be erased (TENTATIVE)',
     'PREPASS': 'a translator counter is read as a value only in loops preceded by a pass that registers the same values (PREPASS)',
+    'ITERINVAL': 'no container is restructured inside a loop that iterates it, except by the idioms the standard keeps valid (ITERINVAL)',
     'SIBLING': 'sibling functors hold and initialise the same caches and agree on the shape of their shared calls (SIBLING)',
     'FORWARD': 'facade methods forward every argument, in order, to the same-named core method (FORWARD)',
     'TUPLEPOS': 'position-wise tuple handling never reorders, deduplicates or drops positions (TUPLEPOS)',
